@@ -164,7 +164,7 @@ def check(case, ctx):
     if fails:
         return fails
     rowsA, rowsB = Rows.from_evals(evA), Rows.from_evals(evB)
-    extra, lost = subtract_rows(rowsA, rowsB, rtol=1e-8, atol=1e-9)
+    extra, lost = subtract_rows(rowsA, rowsB, rtol=1e-7, atol=1e-9)
     if lost.count():
         fails.append(Fail("rows-lost", feats, {"lost": lost.count(), "first": (lost.eq + lost.ineq)[:2]}))
     want = Rows()
